@@ -363,6 +363,37 @@ func c02() []*Ob {
 		{Prop: "C02", ID: "C02.9", Engine: "FINITE(SCCP)", Floor: 4,
 			Desc:  "the tree that is evaluated means what was parsed: the negation push-down applied to every query before it is searched (propagateNot) rewrites each (operator, left negated, right negated) cell into an equivalent node, buildEvalTree reads NAnd in the child order it was written, and the root NOT is added exactly under the returned flag (shared rule with C12.4)",
 			Check: func(c *Ctx) { checkPropagateNot(c) }},
+		{Prop: "C02", ID: "C02.10", Engine: "PAIR", Floor: 1,
+			Desc:  "the limit is applied to fractions in the order their borders were sorted in: List.Sort orders by the border calcEnsuredIDsCount cuts with (shared rule with C05.2) — otherwise the first `limit` ids of an ascending search omit the oldest documents of a fraction that encloses the others",
+			Check: func(c *Ctx) { sortKeyIsCutKey(c) }},
+		{Prop: "C02", ID: "C02.11", Engine: "ORDER", Floor: 1,
+			Desc: "the LID inversion table of an active search starts from zeroes: the pooled memory behind inverser.inversion is cleared between being acquired and being filled from the _all_ snapshot (a slot the snapshot does not cover must read 'unknown', not whatever an earlier search left there — inverseLIDs drops unknown LIDs, a stale slot maps a new document onto an unrelated position)",
+			Check: func(c *Ctx) {
+				fn := c.Fn("frac.newInverser")
+				if fn == nil {
+					return
+				}
+				acquire := c.P.MustCall(Callee("bytespool.AcquireLen", "bytespool.Acquire"))
+				clearCall := c.P.MustCall(Callee("builtin.clear"))
+				fills := func(in ssa.Instruction) bool {
+					st, ok := in.(*ssa.Store)
+					if !ok {
+						return false
+					}
+					ia, ok := st.Addr.(*ssa.IndexAddr)
+					return ok && InLoop(st.Block()) && TypeStr(ia.X.Type()) == "[]int"
+				}
+				if !c.P.HasCall(fn, Callee("bytespool.AcquireLen", "bytespool.Acquire")) {
+					c.Site(fn.Pos(), "the inversion table is not taken from pooled memory")
+					return
+				}
+				_ = acquire
+				n := PrecedeI(c, fn, CallSel(clearCall), "clear(table)", fills, "filling the table from the snapshot")
+				if n == 0 && !c.P.HasCall(fn, Callee("builtin.clear")) {
+					// zeroing by a loop over the whole table is accepted as well
+					c.Violation("order:newInverser:not-cleared", fn.Pos(), "the pooled memory behind the inversion table is not cleared before it is filled: slots that the _all_ snapshot does not cover keep values of an earlier search")
+				}
+			}},
 		{Prop: "C02", ID: "C02.5", Engine: "DOM", Floor: 1,
 			Desc: "no repeated LID in a posting list: in frac.mergeSorted every element taken from the freshly queued list (which repeats a LID when a document carries the token twice) is appended only after the comparison with the previously appended value",
 			Check: func(c *Ctx) {
